@@ -71,22 +71,6 @@ theorem C36_report_member (fmt : Format) (wae : Bool) (filt : Option Filter) (ms
       ∃ ds, (f, some ds) ∈ msgs ∧ d ∈ ds ∧ keep filt d = true := by
   rw [C36_report_exact]; exact mem_filteredPairs filt msgs f d
 
-theorem filteredPairs_sublist (filt : Option Filter) (msgs : List Msg) :
-    (filteredPairs filt msgs).Sublist (filteredPairs none msgs) := by
-  unfold filteredPairs
-  induction msgs with
-  | nil => simp
-  | cons m ms ih =>
-    simp only [List.flatMap_cons]
-    refine List.Sublist.append ?_ ih
-    cases m.2 with
-    | none => simp
-    | some ds =>
-      have h : ds.filter (keep none) = ds := List.filter_eq_self.mpr (fun _ _ => rfl)
-      dsimp only
-      rw [h]
-      exact List.Sublist.map _ List.filter_sublist
-
 /-- **C36 each diagnostic once.** If the diagnostics delivered by the analysis are pairwise distinct as
 (file, diagnostic) pairs, no report lists a diagnostic twice. -/
 theorem C36_report_once (fmt : Format) (wae : Bool) (filt : Option Filter) (msgs : List Msg)
@@ -109,11 +93,6 @@ theorem C36_json_entries (wae : Bool) (filt : Option Filter) (msgs : List Msg) :
     simp only [List.flatMap_cons, List.map_append, ih, List.filterMap_cons]
     unfold writeOf
     cases m.2 <;> simp
-
-theorem filteredPairs_perm (filt : Option Filter) {m₁ m₂ : List Msg} (h : m₁.Perm m₂) :
-    (filteredPairs filt m₁).Perm (filteredPairs filt m₂) := by
-  unfold filteredPairs
-  exact List.Perm.flatMap_right _ h
 
 /-- **Arrival order is irrelevant.** The channel is filled by concurrent tasks; for any two arrival
 orders of the same messages the exit status is the same and the reports hold the same diagnostics. -/
